@@ -1,7 +1,8 @@
 #!/usr/bin/env python3
 """C01 — record layouts: proofs in coq/Props/C01.v; the compiled program (default and -tags docker builds)
 must report the layout the Coq model computes; encoding/binary must agree with the model codec; the real
-partial-update entry points must change exactly the bytes the model's write_at changes."""
+partial-update entry points must change exactly the bytes the model's write_at changes - also as the second,
+third ... write of one process after writes the operating system refused (histories, section 5b)."""
 import os, re, struct, sys
 sys.path.insert(0, os.path.join(os.path.dirname(os.path.abspath(__file__)), "..", "lib"))
 import vf
@@ -290,6 +291,210 @@ def main():
         c.violation("padding:PostLog", "five AppendRecord(.post, PostLog, POSTLOG_SZ) calls returned indices %s, file size %s, record count %s (expected 1..5, 500, 5)"
                     % (ao.split()[1:-2], ao.split()[-2:-1], ao.split()[-1:]), {"cases": ["8|5"], "expected": "0 1 2 3 4 5 500 5", "got": ao})
 
+    # ------------------------------------------------------------ 5b. histories: the second use after a refused write
+    # Several writes in ONE process; some are refused by the operating system (.PASSWDS on /dev/full -> ENOSPC,
+    # RLIMIT_FSIZE 0 -> EFBIG; read-only / closed handle -> EBADF; a writer with room for k bytes). Every
+    # partial-update entry point, the whole-record write, the level-2 update, types.BinaryWrite itself and
+    # cmsys.AppendRecord run AFTER a refused write, and the file images are compared byte for byte with a
+    # reference written here (and with the model's run_history / bw_history).
+    NOW = 1600000000
+    KNAME = {1: "PasswdHash", 2: "Email", 3: "Money", 4: "Record", 5: "Level2"}
+    FOFF = {1: (61, 14), 2: (128, 50), 3: (120, 4)}
+
+    def ref_encode(n, leaves):
+        out = []
+        for (k, sz), v in zip(kinds[n], leaves):
+            out += [1 if v else 0] if k == "b" else list(int(v).to_bytes(sz, "little", signed=(k == "i")))
+        return out
+
+    def ref_write_at(f, a, img):
+        f = f + [0] * max(0, a - len(f))
+        return f[:a] + img + f[a + len(img):]
+
+    def ref_history(pw, pw2, steps):
+        """-> statuses [(st, code)], .PASSWDS, .PASSWD2 (None = absent) after the steps"""
+        sts = []
+        for st in steps:
+            kind, dev, uid, pay = st
+            if kind == 5:
+                perm, isset = pay[0], pay[1]
+                if pw2 is not None and len(pw2) > 128:
+                    sts.append((3, 3)); continue
+                base = ([1, 0, 0, 0] + [0] * 124) if pw2 is None else pw2 + [0] * (128 - len(pw2))
+                old = struct.unpack("<I", bytes(base[4:8]))[0]
+                newv = (old | perm) if isset else (old & ~perm & 0xffffffff)
+                pw2 = base[:4] + list(struct.pack("<I", newv)) + list(struct.pack("<i", pay[2])) + base[12:]
+                sts.append((0, 0)); continue
+            if not (1 <= uid <= MAXU):
+                sts.append((3, 1)); continue
+            if dev != 0:
+                sts.append((3, 4)); continue
+            if kind == 4:
+                pw = ref_write_at(pw, SZ * (uid - 1), ref_encode("UserecRaw", pay))
+            else:
+                img = list(struct.pack("<i", pay[0])) if kind == 3 else list(pay)
+                pw = ref_write_at(pw, SZ * (uid - 1) + FOFF[kind][0], img)
+            sts.append((0, 0))
+        return sts, pw, pw2
+
+    def hist_line(pin, pw, pw2, steps):
+        return "10|0 %d|%s|%d|%s|%s" % (pin, toks(pw), 0 if pw2 is None else 1, toks(pw2 or []),
+                                        "|".join("%d %d %d %s" % (k, d, u, toks(p)) for k, d, u, p in steps))
+
+    def hist_expected(pw, pw2, steps):
+        sts, epw, epw2 = ref_history(list(pw), None if pw2 is None else list(pw2), steps)
+        out = ["0"] + [str(x) for s_ in sts for x in s_] + [str(len(epw))] + [str(x) for x in epw]
+        out += ["0", "0"] if epw2 is None else ["1", str(len(epw2))] + [str(x) for x in epw2]
+        return " ".join(out)
+
+    def rand_step(kind, dev, uid):
+        if kind == 1:
+            pay = [rng.randrange(256) for _ in range(14)]
+        elif kind == 2:
+            pay = [rng.randrange(256) for _ in range(50)]
+        elif kind == 3:
+            pay = [rng.choice([0, -1, 2 ** 31 - 1, -2 ** 31, rng.randrange(-2 ** 31, 2 ** 31)])]
+        elif kind == 4:
+            pay = [rand_leaf(rng, k) for k in kinds["UserecRaw"]]
+        else:
+            pay = [rng.choice([1, 2 ** 31, 2 ** 32 - 1, rng.getrandbits(32)]), rng.randrange(2), NOW]
+            dev, uid = 0, 0
+        return (kind, dev, uid, pay)
+
+    hist = []                                                   # (pin, pw, pw2, steps)
+    def rand_files():
+        pw = [rng.randrange(256) for _ in range(SZ * rng.choice([4, 4, 4, 3, 6]))]
+        pw2 = rng.choice([None, [rng.randrange(256) for _ in range(128)], [rng.randrange(256) for _ in range(128)], [rng.randrange(256) for _ in range(rng.choice([12, 100, 200]))]])
+        return pw, pw2
+    # every refused writer x every device, followed by every kind of write (and once more: the write after a
+    # successful write is clean again, the one after a second refusal is not allowed to differ either)
+    for rk in (1, 2, 3, 4):
+        for dv in (1, 2):
+            for vk in (1, 2, 3, 4, 5):
+                pw, pw2 = rand_files()
+                steps = [rand_step(rk, dv, rng.choice([1, 2, 3])), rand_step(vk, 0, rng.choice([1, 2, 3]))]
+                if rng.randrange(2):
+                    steps += [rand_step(rng.choice([1, 2, 3, 4]), rng.choice([1, 2]), rng.choice([1, 2, 4])), rand_step(rng.choice([1, 2, 3, 5]), 0, rng.choice([1, 2, 3, 4]))]
+                hist.append((1, pw, pw2, steps))
+    for _ in range(400 if thorough else 24):                    # random histories
+        pw, pw2 = rand_files()
+        steps = []
+        for _ in range(rng.randrange(2, 9)):
+            steps.append(rand_step(rng.choice([1, 2, 3, 3, 4, 5]), rng.choice([0, 0, 1, 2]), rng.choice([1, 2, 3, 4, 4, 7, MAXU, 0, MAXU + 1, -1])))
+        hist.append((rng.choice([1, 1, 0]), pw, pw2, steps))
+    if thorough:                                                # the whole 25600-byte file
+        for _ in range(20):
+            pw = [rng.randrange(256) for _ in range(SZ * MAXU)]
+            hist.append((1, pw, None, [rand_step(rng.choice([1, 2, 3, 4]), rng.choice([0, 1, 2]), rng.randrange(1, MAXU + 1)) for _ in range(10)]))
+    hl = [hist_line(*h_) for h_ in hist]
+    ho = both(hl, "histories with refused writes (entry points) vs run_history")
+    c.count(len(hl), "histories with refused writes")
+    c.count(sum(len(h_[3]) for h_ in hist), "history steps")
+    def fresh(lines):
+        """each call is a new process: nothing an earlier case left behind can be met"""
+        return vf.run_impl(impl, "C01", lines)
+
+    analysed = 0
+    for hi, ((pin, pw, pw2, steps), l, o) in enumerate(zip(hist, hl, ho)):
+        want = hist_expected(pw, pw2, steps)
+        if o.split()[:1] in (["1"], ["2"]):
+            c.violation("history-crash", "a history of %d writes crashes/hangs" % len(steps), {"cases": [l], "got": o[:200]})
+        elif o.split() != want.split():
+            if analysed >= 5:
+                c.violation("history:more", "further histories differ from the reference (not analysed one by one)", {"cases": [l], "expected": want, "got": o[:4000]})
+                continue
+            analysed += 1
+            # name the first step after which the files (or a status) depart: shortest failing prefix, each prefix in a process of its own
+            pl_ = [hist_line(pin, pw, pw2, steps[:k]) for k in range(1, len(steps) + 1)]
+            k = next((k for k in range(len(steps)) if fresh([pl_[k]])[0].split() != hist_expected(pw, pw2, steps[:k + 1]).split()), None)
+            if k is None:
+                # clean on its own: what differs was left behind by the history that ran before it in the same process
+                prev = hl[hi - 1] if hi else l
+                c.violation("history:after-refused-write-of-the-previous-history",
+                            "a history that is correct in a process of its own gives other files when it runs in the same process after the previous history (which contains refused writes)",
+                            {"cases": [prev, l], "expected": want, "got": o[:4000]})
+                continue
+            got, exp = fresh([pl_[k]])[0].split(), hist_expected(pw, pw2, steps[:k + 1]).split()
+            d = [i for i in range(min(len(got), len(exp))) if got[i] != exp[i]]
+            kind, dev, uid, _ = steps[k]
+            after = any(s_[1] != 0 and 1 <= s_[2] <= MAXU for s_ in steps[:k])
+            nst = 1 + 2 * (k + 1)
+            npw = int(exp[nst])
+            if d and d[0] < nst:
+                where = "status of step %d is %s, expected %s" % ((d[0] - 1) // 2 + 1, got[1 + 2 * ((d[0] - 1) // 2):][:2], exp[1 + 2 * ((d[0] - 1) // 2):][:2])
+            else:
+                dpw = [x - nst - 1 for x in d if nst < x <= nst + npw]
+                dp2 = [x - nst - npw - 3 for x in d if x > nst + npw + 2]
+                where = "%d bytes of .PASSWDS differ (first offsets %s = record %s offset %s), %d bytes of .PASSWD2 differ (first offsets %s)" % (
+                    len(dpw), dpw[:5], dpw[0] // SZ + 1 if dpw else "-", dpw[0] % SZ if dpw else "-", len(dp2), dp2[:5])
+            c.violation("history:%s%s" % (KNAME[kind], ":after-refused-write" if after else ""),
+                        "step %d of a history (%s%s, uid %d%s) does not leave the files a first write would leave: %s; result lengths %d/%d. Steps so far: %s"
+                        % (k + 1, KNAME[kind], "" if dev == 0 else " on a refusing device", uid, ", after a write the OS refused" if after else "",
+                           where, len(got), len(exp), ", ".join("%s%s(uid %d)" % (KNAME[a], "" if b == 0 else "[refused:%s]" % {1: "ENOSPC", 2: "EFBIG"}[b], u) for a, b, u, _ in steps[:k + 1])),
+                        {"cases": [pl_[k]], "expected": " ".join(exp), "got": " ".join(got)[:4000]})
+        for kind, dev, uid, _ in steps:
+            c.nontrivial(("hist", kind, dev, uid, len(pw), None if pw2 is None else len(pw2)))
+    c.sample({"op": "history", "steps": [(KNAME[a], b, u) for a, b, u, _ in hist[0][3]], "result": ho[0][:40] + " ..."})
+    c.cov["exhaustive_parts"].append("refused writer {PasswdUpdatePasswd, PasswdUpdateEmail, SetUMoney, PasswdUpdate} x device {/dev/full, RLIMIT_FSIZE 0} x following write {the same four, PasswdUpdateUserLevel2}")
+
+    # types.BinaryWrite itself, to writers that refuse: what reaches the NEXT writer is the next value's image
+    bw = []
+    def rand_val(n):
+        return (n, [rand_leaf(rng, k) for k in kinds[n]])
+    for n in codec_types:
+        sz = compiled[("default", n)]["packed"]
+        for sink in (0, rng.randrange(1, sz) if sz > 1 else 0, -2, -3, -4):
+            m = rng.choice(codec_types)
+            bw.append([rand_val(n) + (sink,), rand_val(n) + (-1,), rand_val(m) + (sz + 7,), rand_val(m) + (-1,)])
+    for _ in range(200 if thorough else 10):
+        bw.append([rand_val(rng.choice(codec_types)) + (rng.choice([-1, -1, 0, 5, 60, 300, -2, -3, -4]),) for _ in range(rng.randrange(2, 7))])
+    bl = ["11|0 %d|%s" % (1 if i % 4 else 0, "|".join("%s|%s|%d" % (nm(n), toks(lv), k) for n, lv, k in seq)) for i, seq in enumerate(bw)]
+    bo = both(bl, "histories of types.BinaryWrite to refusing writers vs bw_history")
+    c.count(len(bl), "BinaryWrite histories")
+    analysed = 0
+    for bi, (seq, l, o) in enumerate(zip(bw, bl, bo)):
+        exp, prefix = ["0"], []
+        for j, (n, lv, k) in enumerate(seq):
+            img = ref_encode(n, lv)
+            okk = k == -1 or len(img) <= k
+            got_ = img if okk else img[:max(k, 0)]
+            exp += (["0", "0"] if okk else ["3", "4"]) + [str(len(got_))] + [str(x) for x in got_]
+            prefix.append(len(exp))
+        if o.split() != exp:
+            if analysed >= 4:
+                c.violation("binarywrite-history:more", "further BinaryWrite histories differ from the reference (not analysed one by one)", {"cases": [l], "expected": " ".join(exp), "got": o[:4000]})
+                continue
+            analysed += 1
+            alone = fresh([l])[0]
+            if alone.split() == exp:
+                c.violation("binarywrite-history:after-refused-write-of-the-previous-history",
+                            "a history of types.BinaryWrite calls that is correct in a process of its own hands its writers other bytes when it runs in the same process after the previous history (which ends with / contains refused writes)",
+                            {"cases": [bl[bi - 1] if bi else l, l], "expected": " ".join(exp), "got": o[:4000]})
+                continue
+            t = alone.split()
+            d = next((i for i in range(min(len(t), len(exp))) if t[i] != exp[i]), min(len(t), len(exp)))
+            j = next((j for j, e_ in enumerate(prefix) if d < e_), len(seq) - 1)
+            after = any(not (k == -1 or len(ref_encode(n, lv)) <= k) for n, lv, k in seq[:j])
+            c.violation("binarywrite-history:%s%s" % (seq[j][0], ":after-refused-write" if after else ""),
+                        "types.BinaryWrite #%d of a history (%s%s) hands its writer something else than the %d-byte image of its value (result differs from token %d on: got %s, expected %s)"
+                        % (j + 1, seq[j][0], ", after a write its writer refused" if after else "", len(ref_encode(seq[j][0], seq[j][1])), d, t[d:d + 6], exp[d:d + 6]),
+                        {"cases": [l], "expected": " ".join(exp), "got": alone[:4000]})
+        c.nontrivial(("bw", tuple((n, k) for n, lv, k in seq)))
+    c.cov["exhaustive_parts"].append("refusing writer {0 bytes, k bytes, /dev/full, read-only handle, closed handle} x every serialised record type, followed by BinaryWrite of the same and of another type")
+
+    # cmsys.AppendRecord(.post) after refused record writes
+    for nref in (0, 2):
+        recs = [[rand_leaf(rng, k) for k in kinds["PostLog"]] for _ in range(4)]
+        l = "12|%d|%s" % (nref, "|".join(toks(r) for r in recs))
+        o = vf.run_impl(impl, "C01", [l])[0]
+        c.count(1, "postlog appends after refused writes")
+        exp = ["0", "1", "2", "3", "4", "400", "4"] + [str(x) for r in recs for x in ref_encode("PostLog", r)]
+        if o.split() != exp:
+            c.violation("append-history:PostLog" + (":after-refused-write" if nref else ""),
+                        "four AppendRecord(.post) calls%s: indices/size/count %s (expected 1 2 3 4 400 4) or the file is not the four 100-byte images"
+                        % (" after %d refused BinaryWrite(PostLog) to /dev/full" % nref if nref else "", o.split()[1:7]), {"cases": [l], "expected": " ".join(exp), "got": o[:2000]})
+        c.nontrivial(("append-hist", nref))
+
     # ------------------------------------------------------------ 6. what the source hands to encoding/binary
     ba = open(os.path.join(vf.COQ, "Gen", "BinArgs_default.v")).read()
     lists = {m.group(1): re.findall(r'"([^"]+)"', m.group(2)) for m in re.finditer(r"Definition (\w+) : list string := \[(.*?)\]\.", ba)}
@@ -320,10 +525,16 @@ def main():
 
     c.finish(rule="layout: every field of every record/mapped type in both builds; sentinel probe of every disk-record field; codec: PRNG(seed) in-range leaf values incl. extremes per integer kind, then arbitrary bytes; "
                   "partial updates: first/second/last/random/invalid uids x {PasswdHash, Email, Money} on PRNG-filled 25600-byte and short files; level-2: absent/short/exact/oversize files x random permission bits; "
+                  "histories (one process): every refused writer {PasswdUpdatePasswd, PasswdUpdateEmail, SetUMoney, PasswdUpdate} x {ENOSPC on a full device, EFBIG under RLIMIT_FSIZE 0} followed by every kind of write "
+                  "{the same four, PasswdUpdateUserLevel2}, then PRNG histories of 2-8 steps over uids {1,2,3,4,7,MAX,invalid}; types.BinaryWrite histories to writers refusing after 0/k bytes, /dev/full-like device, read-only and closed handles; "
+                  "AppendRecord(.post) after refused writes; whole file images compared byte for byte with a reference written in the check; "
                   "a case is non-trivial if it is a distinct (build, type) layout, a distinct record value, or a distinct accepted update",
              assumptions=["encoding/binary, reflect and the gc layout (unsafe.Sizeof/Offsetof) are observed through the compiled driver, not verified",
                           "the docker build is used for layout only (MAX_USERS = 2 000 000 makes .PASSWDS 1 GB); dynamic cases run on the default build",
-                          "coq/Model/C01_Frozen.v was transcribed from DESIGN.md Appendix C (pttbbs pttstruct.h), no C header is available offline"])
+                          "coq/Model/C01_Frozen.v was transcribed from DESIGN.md Appendix C (pttbbs pttstruct.h), no C header is available offline",
+                          "histories: a refused write is one of which nothing reaches the file (ENOSPC on a private character device 1:7 created by the driver - the shared /dev/full only if it still is that device -, EFBIG under RLIMIT_FSIZE 0 with SIGXFSZ ignored, EBADF on read-only/closed handles); a write torn inside a regular file is C05's subject and appears here only as a writer with room for k bytes",
+                          "histories: the level-2 update's own BinaryWrite calls cannot be made to fail in the sandbox (on a full device its zero-fill write fails first; root ignores file modes), so PasswdUpdateUserLevel2 is exercised AFTER refused writes but never as the refused write",
+                          "histories: the driver runs a pinned history on one P with the collector off so that state kept between calls (package variable, sync.Pool) is met again; verdicts come from byte comparison only. An UpdateTS that lies inside the history's own start/end second is reported as the `now` of the case line (the clock is an input)"])
 
 
 if __name__ == "__main__":
